@@ -6,7 +6,7 @@ import numpy as np
 
 from symv.api import And, eq
 from symv.engine import PathAbort
-from symv.runner import H
+from symv.runner import Direct, H
 
 FUNCTIONS = ["swcgeom.core.population.LazyLoadingTrees.__init__", "__getitem__", "__len__", "__iter__", "load", "ChainTrees.__init__", "ChainTrees.__getitem__", "ChainTrees.__len__",
              "ChainTrees.__iter__", "NestTrees", "Population.__init__", "Population.__getitem__", "Population.__len__", "Population.__iter__", "Population.map", "Population.from_swc",
@@ -371,6 +371,40 @@ def h_transform(c, n):
 
 
 REACH = {"chain": ["empty_member"], "population_dir": ["nested_and_empty", "no_files"], "populations": ["nonempty_intersection", "different_sets"]}
+def d_scale(tier):
+    """Auxiliary, NOT solver-based: 150 lazily loaded members (two folders of 70 and 80 files): iterated twice, indexed, sliced, chained;
+    every file is loaded at most once and population[i] is the tree of the i-th file."""
+    import swcgeom.core.population as P
+
+    loads = []
+
+    class _T:
+        def __init__(self, name):
+            self.source = name
+
+    saved = P.Tree.from_swc
+    P.Tree.from_swc = staticmethod(lambda f, **k: (loads.append(f), _T(f))[1])
+    try:
+        a = P.LazyLoadingTrees([f"a/{i:03d}.swc" for i in range(70)])
+        b = P.LazyLoadingTrees([f"b/{i:03d}.swc" for i in range(80)])
+        ch = P.ChainTrees([a, b])
+        seq1 = [t.source for t in ch]
+        seq2 = [t.source for t in ch]
+        picks = [ch[0].source, ch[-1].source, ch[69].source, ch[70].source, a[5].source, b[-1].source]
+        want = [f"a/{i:03d}.swc" for i in range(70)] + [f"b/{i:03d}.swc" for i in range(80)]
+        ok = seq1 == want and seq2 == want and picks == [want[0], want[-1], want[69], want[70], want[5], want[-1]] and sorted(loads) == sorted(want) and len(loads) == len(set(loads))
+        detail = f"{len(loads)} loads for {len(want)} files, max loads of one file {max(loads.count(x) for x in set(loads))}"
+    finally:
+        P.Tree.from_swc = saved
+    return [dict(name="aux.150_members_loaded_once", status="discharged" if ok else "violated", detail=detail, solver_s=0.0, sample=dict(kind="auxiliary_non_solver", detail=detail),
+                 replay=dict(reproduced=True, why=detail))]
+
+
+def replay_direct(blob):
+    r = d_scale("quick")
+    return dict(reproduced=any(x["status"] == "violated" for x in r), results=r)
+
+
 HARNESSES = [
     H("chain", h_chain, quick=[dict(m=k, maxlen=2, src=s) for k in (1, 2, 3) for s in ("list", "generator")], thorough=[dict(m=3, maxlen=3, src=s) for s in ("list", "generator")] + [dict(m=4, maxlen=2, src="generator")],
       functions=FUNCTIONS, bounds="m<=3 members (4 thorough) of length 0..2 (3 thorough), built from a list and from a generator; key a symbolic integer in [-L-2, L+1]", validate=True),
@@ -381,4 +415,5 @@ HARNESSES = [
     H("missing_root", h_missing_root, quick=[dict()], thorough=[dict()], functions=FUNCTIONS, bounds="-"),
     H("populations", h_populations, quick=[dict()], thorough=[dict()], functions=FUNCTIONS, bounds="two directories, each every layout from the reduced palette (a.swc,b.swc,c.txt; sub-folder with d.swc)"),
     H("transform", h_transform, quick=[dict(n=0), dict(n=2)], thorough=[dict(n=3)], functions=FUNCTIONS, bounds="n<=2/3 trees"),
+    Direct("scale", d_scale, functions=FUNCTIONS, bounds="auxiliary concrete run: 150 lazily loaded members (not a solver claim)"),
 ]
